@@ -30,6 +30,8 @@ BaseImps ==
     [k |-> "imp", level |-> 0, mod |-> "district42", names |-> <<Nm("schema", "", ToSchema), Nm("GenericSchema", "G", ToGeneric)>>, form |-> "one"],
     [k |-> "imp", level |-> 0, mod |-> "district42", names |-> <<Nm("schema", "", ToSchema), Nm("not_a_v1_name", "", <<>>)>>, form |-> "one"],
     [k |-> "imp", level |-> 0, mod |-> "revolt.errors", names |-> <<Nm("SubstitutionError", "", ToSubErr)>>, form |-> "one"],
+    \* "u_alias" is rendered as a non-ASCII identifier (columns counted in bytes are not columns in characters)
+    [k |-> "imp", level |-> 0, mod |-> "district42", names |-> <<Nm("schema", "u_alias", ToSchema)>>, form |-> "one"],
     [k |-> "imp", level |-> 0, mod |-> "os", names |-> <<Nm("path", "", <<>>)>>, form |-> "one"],
     [k |-> "imp", level |-> 1, mod |-> "district42", names |-> <<Nm("schema", "", <<>>)>>, form |-> "one"],
     [k |-> "imp", level |-> 0, mod |-> "district42", names |-> <<Nm("*", "", <<>>)>>, form |-> "one"] }
@@ -41,7 +43,8 @@ Imps == BaseImps \cup MultiImps
 \* other statements: ids are rendered by the harness
 \*  1 assignment  2 multi-line expression  3 plain `import district42`  4 string mentioning an import
 \*  5 def with a nested import  6 try/except around an import  7 docstring  8 comment line
-Simple == {[k |-> "oth", id |-> i, form |-> "one"] : i \in {1, 2, 3, 4}}
+\*  9 assignment with non-ASCII names and text
+Simple == {[k |-> "oth", id |-> i, form |-> "one"] : i \in {1, 2, 3, 4, 9}}
 Compound == {[k |-> "oth", id |-> i, form |-> "one"] : i \in {5, 6, 7, 8}}
 
 SingleRows == {<<x>> : x \in Imps \cup Simple \cup Compound}
